@@ -1,10 +1,25 @@
 ----------------------------- MODULE MC_Session -----------------------------
 (* Model-checking / generation wrapper of Session.tla: writes, for every     *)
-(* explored edge, the witness history of the source state plus the edge      *)
-(* (one JSON line), to $GEN_OUT.  Run with -workers 1 when dumping.          *)
+(* explored edge, the witness history of the source state plus the edge and  *)
+(* the probes of the target state (one JSON line) to $GEN_OUT.               *)
+(* Run with -workers 1 when dumping.                                         *)
 EXTENDS Session, Json, IOUtils, CSV
 
-EdgeDump == IF "GEN_OUT" \in DOMAIN IOEnv
-            THEN CSVWrite("%1$s", <<ToJson(log')>>, IOEnv.GEN_OUT)
+\* Records are written without the fields that still have their default value
+\* (the consumer's zero values), which cuts the volume by about two thirds.
+Slim(r, d) == [k \in {k \in DOMAIN r : r[k] # d[k]} |-> r[k]]
+SlimCall(cl) == Slim([k \in DOMAIN cl \ {"rdir"} |-> cl[k]],
+                     [k |-> "", f |-> -1, names |-> <<>>, f2 |-> 0, a |-> "", res |-> "ok", nf |-> 0,
+                      mode |-> "", len |-> FALSE, fenced |-> FALSE])
+SlimStep(st) == [c |-> st.c,
+                 req |-> Slim(st.req, [Req("") EXCEPT !.fid = -1]),
+                 calls |-> [i \in 1..Len(st.calls) |-> SlimCall(st.calls[i])],
+                 reply |-> st.reply, closes |-> st.closes, paths |-> st.paths,
+                 okerr |-> st.okerr, fen |-> st.fen]
+SlimSeq(sq) == [i \in 1..Len(sq) |-> SlimStep(sq[i])]
+
+\* With GEN_LAST set (simulation runs) only histories of full length are written.
+EdgeDump == IF "GEN_OUT" \in DOMAIN IOEnv /\ ("GEN_LAST" \in DOMAIN IOEnv => depth' = MaxDepth)
+            THEN CSVWrite("%1$s", <<ToJson([h |-> SlimSeq(log'), p |-> SlimSeq(ProbesAfter)])>>, IOEnv.GEN_OUT)
             ELSE TRUE
 =============================================================================
